@@ -226,7 +226,13 @@ pub trait TypedIterable {
         let new_offset_next = (self.offset_next() as isize + shift) as usize;
         self.set_offset_next(new_offset_next);
         let section = self.current_section()?;
+        let offset = self.offset();
         let parsed_packet = self.parsed_packet_mut();
+        if parsed_packet.offset_edns > offset {
+            parsed_packet.offset_edns = parsed_packet
+                .offset_edns
+                .map(|x| (x as isize + shift) as usize)
+        }
         if section == Section::NameServers
             || section == Section::Answer
             || section == Section::Question
